@@ -610,6 +610,22 @@ def streams(tier, rng):
 
     # ---- e2e: real macro-generated registry, real Divan::main() --list in a child process ----
     e2e_cases = [f"{a} {r}" for a in ATTRS for r in (0, 1)]
+    # both flags on one command line, in both orders (and three alternating): the LAST one is the choice
+    # (same flag twice and DIVAN_SORT x --sortr are clap usage errors on the unchanged tree: not generated)
+    e2e_cases += list(corpus.get("e2e", []))
+    seen_cl = set(e2e_cases)
+    n_cl = 10 if quick else 60
+    tries = 0
+    while len(e2e_cases) < 6 + n_cl and tries < 1000:
+        tries += 1
+        k = rng.choice([2, 2, 3])
+        first = rng.choice(["sort", "sortr"])
+        flags = [first if i % 2 == 0 else ("sortr" if first == "sort" else "sort") for i in range(k)]
+        attrs = [rng.choice(ATTRS) for _ in range(k)]
+        c = f"{attrs[-1]} {1 if flags[-1] == 'sortr' else 0} cl:" + ",".join(f"{f}={a}" for f, a in zip(flags, attrs))
+        if c not in seen_cl:
+            seen_cl.add(c)
+            e2e_cases.append(c)
 
     def e2e_model_input(c, i):
         k = i.find(" => ")
@@ -628,7 +644,8 @@ def streams(tier, rng):
         Stream("tree-sibling-order", "tree", tree_cases, nontrivial=nt_tree, hist=hist_tree),
         Stream("end-to-end-listing", "e2e", e2e_cases, compare=e2e_compare, model_input=e2e_model_input,
                describe="hx-sort-e2e: #[divan::bench]/#[divan::bench_group] items (renamed groups, generic types not in token "
-                        "order, signed consts, types x consts, args) listed by Divan::main() --list --sort/--sortr <attr>"),
+                        "order, signed consts, types x consts, args) listed by Divan::main() --list --sort/--sortr <attr>; also "
+                        "--sort and --sortr together in both orders: the last flag decides attribute and direction"),
     ]
     return out
 
